@@ -357,11 +357,11 @@ def apply_boundary_conditions(
         for idx in reflective:
             # Reflect values outside [0, 1] back into the domain
             val = u[..., idx]
-            # Use floor division to determine number of reflections
-            n_reflect = np.floor(val).astype(int)
-            remainder = val - n_reflect
-            # Odd number of reflections means we need to flip
-            u[..., idx] = np.where(n_reflect % 2 == 0, remainder, 1.0 - remainder)
+            # Position within the period-2 triangle wave (floating-point modulo,
+            # so arbitrarily large magnitudes do not overflow an integer cast)
+            remainder = np.mod(val, 2.0)
+            # The second half of the period is the reflected branch
+            u[..., idx] = np.where(remainder <= 1.0, remainder, 2.0 - remainder)
 
     return u
 
